@@ -980,10 +980,10 @@ func genDeepProg(g *vlib.G) {
 						continue
 					}
 					k++
-					// gotos: quick 1/16 of the (program, goto) pairs, thorough 1/4.
+					// gotos: quick 1/16 of the (program, goto) pairs, thorough 1/8.
 					gstride := 16
 					if th {
-						gstride = 4
+						gstride = 8
 					}
 					if (k+pi)%gstride != 0 {
 						continue
